@@ -97,6 +97,8 @@ def run_shard(shard):
             mergekey_family(st)
         if li == 2:
             stdin_family(st)
+        if li == 3:
+            mergeat_family(st)
     finally:
         cleanup()
     st.sample({"lhs_stream": render_stream(STREAMS[li]),
@@ -237,6 +239,106 @@ def check(st, lidx, ridx, mode, pol):
     for i, (g, w) in enumerate(zip(got, want)):
         if refmerge.unordered(g) != refmerge.unordered(w):
             st.fail("%s|document-content" % mode, case,
+                    "document %d = %r" % (i, w), repr(g)[:300])
+            return
+
+
+def mergeat_family(st):
+    """The modes with a merge point other than the root: every output
+    document is the mode's fold of the library's own single pairwise merges
+    (Merger.merge_with on freshly loaded documents, same configuration) -
+    empty left documents included.  Right-hand documents beyond the left
+    stream's end (merge_across) are only counted."""
+    pool = (0, 2, 4, 5)
+    streams = [(i,) for i in pool] + list(itertools.product(pool, repeat=2))
+    pol = POLS[0]
+    for mergeat in ("/top/sub", "/k", "/q"):
+        cfg = mergerun.make_config(pol, mergeat=mergeat)
+        for lidx in streams:
+            for ridx in streams:
+                for mode in MODES:
+                    mergeat_case(st, cfg, mergeat, lidx, ridx, mode, pol)
+
+
+def _fresh(i):
+    return None if POOL[i] is None else corpus.load(corpus.render(POOL[i]))
+
+
+def mergeat_case(st, cfg, mergeat, lidx, ridx, mode, pol):
+    st.evaluations += 1
+    case = {"lhs_stream": render_stream(lidx), "rhs_stream":
+            render_stream(ridx), "mode": mode, "policies": pol,
+            "mergeat": mergeat, "lidx": list(lidx), "ridx": list(ridx)}
+
+    def step(acc, i):
+        res, data = mergerun.merge(acc, _fresh(i), cfg)
+        if res != "ok":
+            raise Impossible(data)
+        return data
+    cfg.args.multi_doc_mode = mode
+    try:
+        if mode == "condense_all":
+            acc = _fresh(lidx[0])
+            for i in tuple(lidx[1:]) + tuple(ridx):
+                acc = step(acc, i)
+            want = [corpus.canon(acc)]
+        elif mode == "merge_across":
+            want = []
+            for n, i in enumerate(lidx):
+                want.append(corpus.canon(
+                    step(_fresh(i), ridx[n]) if n < len(ridx) else _fresh(i)))
+            want += [None] * max(0, len(ridx) - len(lidx))
+        else:
+            want = []
+            for i in lidx:
+                acc = _fresh(i)
+                for j in ridx:
+                    acc = step(acc, j)
+                want.append(corpus.canon(acc))
+    except Impossible:
+        want = None
+    lpath = os.path.join(scratch(), "lhs.yaml")
+    rpath = os.path.join(scratch(), "rhs.yaml")
+    with open(lpath, "w", encoding="utf-8") as fh:
+        fh.write(render_stream(lidx))
+    with open(rpath, "w", encoding="utf-8") as fh:
+        fh.write(render_stream(ridx))
+    from yamlpath.common import Parsers
+    editor = Parsers.get_yaml_editor()
+    Merger.depwarn_printed = False
+    try:
+        lhs_docs, ok = yaml_merge.get_doc_mergers(corpus.LOG, editor, cfg,
+                                                  lpath)
+        with core.watchdog(10):
+            state = yaml_merge.merge_docs(corpus.LOG, editor, cfg, lhs_docs,
+                                          rpath)
+    except (Exception, core.Hang) as ex:  # pylint: disable=broad-except
+        st.fail("mergeat|crash|%s|%s" % (mode, type(ex).__name__), case,
+                "a return state", repr(ex)[:200])
+        return
+    st.transitions += 1
+    st.validated += 1
+    st.states += 1
+    st.sig("mergeat", mergeat, tuple(lidx), tuple(ridx), mode, want is None)
+    if want is None:
+        st.outcomes["mergeat:refused"] += 1
+        if state == 0:
+            st.fail("mergeat|%s|no-failure-status" % mode, case,
+                    "a non-zero return state", "0")
+        return
+    st.outcomes["mergeat:merged"] += 1
+    if state != 0:
+        st.fail("mergeat|%s|spurious-failure-status" % mode, case, "0",
+                str(state))
+        return
+    got = [corpus.canon(m.data) for m in lhs_docs]
+    if len(got) != len(want):
+        st.fail("mergeat|%s|document-count" % mode, case,
+                "%d documents" % len(want), "%d documents" % len(got))
+        return
+    for i, (g, w) in enumerate(zip(got, want)):
+        if w is not None and g != w:
+            st.fail("mergeat|%s|document-content" % mode, case,
                     "document %d = %r" % (i, w), repr(g)[:300])
             return
 
@@ -478,6 +580,17 @@ def replay(case):
     if case.get("mergekeys"):
         try:
             mergekey_family(st)
+        finally:
+            cleanup()
+        for lst in st.fails.values():
+            return lst[0]
+        return None
+    if case.get("mergeat"):
+        try:
+            mergeat_case(st, mergerun.make_config(
+                case["policies"], mergeat=case["mergeat"]), case["mergeat"],
+                         tuple(case["lidx"]), tuple(case["ridx"]),
+                         case["mode"], case["policies"])
         finally:
             cleanup()
         for lst in st.fails.values():
